@@ -276,6 +276,22 @@ GRAMMAR = {
                                   PLISTNode=[x for x in JSON_VALUES if x != 'NullNode'])),
     'pickle': (['Module'], PY_GRAMMAR),
 }
+# scalar classes (scalar_kind) a leaf of each input type can carry; audited against AUDITED['grammar']:
+# json.build_tree decodes bytes to str (so only pickle, through BasicBuilder.build_str, keeps bytes objects);
+# csv / xml / html leaves are strings; XML 1.0 has no control characters; plistlib carries neither null nor
+# integers outside int64/uint64
+_STR = ['str', 'str-empty', 'str-special', 'str-nonascii', 'str-astral']
+_NUM = ['bool', 'int', 'float', 'inf', 'nan']
+KINDS = {
+    'json': ['null', 'bigint', 'str-control'] + _NUM + _STR,
+    'json5': ['null', 'bigint', 'str-control'] + _NUM + _STR,
+    'yaml': ['null', 'bigint', 'str-control'] + _NUM + _STR,
+    'csv': ['str-control'] + _STR,
+    'xml': _STR,
+    'html': _STR,
+    'plist': _NUM + _STR,
+    'pickle': ['null', 'bigint', 'str-control', 'bytes'] + _NUM + _STR,
+}
 # node classes (and their subclasses) whose edit prints its sub-edits one by one through the SAME formatter
 # (AbstractCompoundEdit.print / EditCollection.print); audited against AUDITED['protocol']
 SUBEDIT_NODES = ['DataClassNode', 'PLISTNode']
@@ -644,8 +660,12 @@ def gen_dispatch(repo):
         for c in list(roots) + list(g) + [x for v in g.values() for x in v]:
             if c not in known:
                 raise TranslationError(f'grammar of {it} names the unknown class {c}')
+        probed = {k for _, _, _, kinds in r['probe'] for k, _, _ in kinds}
+        for k in KINDS[it]:
+            if k not in probed:
+                raise TranslationError(f'scalar class {k} of {it} is not probed')
         rows.append(f'  ({cstr(it)}, ({clist(roots)},\n     ' +
-                    clist(sorted(g.items()), lambda p: f'({cstr(p[0])}, {clist(p[1])})') + '))')
+                    clist(sorted(g.items()) + [('#kinds', KINDS[it])], lambda p: f'({cstr(p[0])}, {clist(p[1])})') + '))')
     L.append(';\n'.join(rows) + '].')
     for c in SUBEDIT_NODES:
         if c not in known:
